@@ -625,6 +625,69 @@ func (g *Graph) Reach(q Query) map[*GNode]bool {
 	return reached
 }
 
+// ReachVals is Reach that also reports the flag valuations with which each node is reached (before the node runs).
+func (g *Graph) ReachVals(q Query) map[*GNode]map[Val]bool {
+	out := map[*GNode]map[Val]bool{}
+	seen := map[state]bool{}
+	var work []state
+	push := func(s state) {
+		if !seen[s] {
+			seen[s] = true
+			work = append(work, s)
+		}
+	}
+	leave := func(n *GNode, v Val) {
+		for _, e := range n.Succ {
+			if q.AvoidEdge != nil && q.AvoidEdge(e) {
+				continue
+			}
+			nv := v
+			if e.Cond != nil && e.Tag == nil {
+				r := g.eval(e.Cond, v)
+				if (e.Taken && r == tvF) || (!e.Taken && r == tvT) {
+					continue
+				}
+				nv = g.assume(e.Cond, e.Taken, v)
+			}
+			push(state{e.To, nv})
+		}
+	}
+	if q.FromEntry {
+		push(state{g.Entry, 0})
+	}
+	for _, n := range q.From {
+		leave(n, 0)
+	}
+	for len(work) > 0 {
+		s := work[len(work)-1]
+		work = work[:len(work)-1]
+		if out[s.n] == nil {
+			out[s.n] = map[Val]bool{}
+		}
+		out[s.n][s.v] = true
+		if q.AvoidNode != nil && q.AvoidNode(s.n) {
+			continue
+		}
+		leave(s.n, g.transfer(s.n, s.v))
+	}
+	return out
+}
+
+// FlagIs reports the value of a tracked flag in a valuation: +1 true, -1 false, 0 unknown / not tracked.
+func (g *Graph) FlagIs(v Val, flag *types.Var) int {
+	i, ok := g.flagIx[flag]
+	if !ok {
+		return 0
+	}
+	switch v.get(i) {
+	case tvT:
+		return 1
+	case tvF:
+		return -1
+	}
+	return 0
+}
+
 // ExitReachable tells whether some exit of the function is reachable under q; it returns one such exit.
 func (g *Graph) ExitReachable(q Query) *GNode {
 	r := g.Reach(q)
